@@ -347,6 +347,9 @@ _add_job("C12", J("exp-queues-in-concurrent-trials", "expcheck", "rel", 2, 24, 3
 _add_job("C12", J("exp-queues-in-concurrent-trials-tsan", "expcheck", "tsan", 2, 4, 100, timeout=600, chunk=1, claim="C12/concurrent-trials/"))
 _add_job("C20", J("exp-static-pools-in-concurrent-trials", "expcheck", "rel", 0, 16, 2000, timeout=300, chunk=2, claim="C20/concurrent-trials/"))
 _add_job("C20", J("exp-static-pools-in-concurrent-trials-tsan", "expcheck", "tsan", 1, 4, 100, timeout=600, chunk=1, claim="C20/concurrent-trials/"))
+_add_job("C17", J("exp-weighted-statistics-in-concurrent-trials", "expcheck", "rel", 3, 24, 3000, timeout=300, chunk=2, claim="C17/concurrent-trials/"))
+_add_job("C17", J("exp-weighted-statistics-in-concurrent-trials-tsan", "expcheck", "tsan", 3, 4, 100, timeout=600, chunk=1, claim="C17/concurrent-trials/"))
+_add_job("C09", J("sf-directed-reaped-jobs", "simfuzz", "rel", 107, 90, 900))
 _add_job("C04", J("sf-directed-clear-and-continue", "simfuzz", "rel", 104, 480, 4800))
 _add_job("C04", J("sf-directed-same-instant-restart", "simfuzz", "rel", 106, 1344, 2688))
 _add_job("C09", J("sf-directed-clear-and-continue", "simfuzz", "rel", 104, 480, 4800))
@@ -379,6 +382,8 @@ PROPS["C10"] = {
            J("sf-directed-clear-and-continue-asan", "simfuzz", "asan", 104, 120, 960, timeout=120),
            J("sf-directed-condition-crowd-asan", "simfuzz", "asan", 105, 60, 720, timeout=300),
            J("sf-directed-same-instant-restart-asan", "simfuzz", "asan", 106, 168, 1344, timeout=120),
+           J("sf-directed-reaped-jobs-asan", "simfuzz", "asan", 107, 90, 900, timeout=120),
+           J("sf-directed-reaped-jobs-rel", "simfuzz", "rel", 107, 90, 900),
            J("sf-directed-tag-pools-asan", "simfuzz", "asan", 101, 2, 8, timeout=300),
            J("sf-directed-tag-pools-rel", "simfuzz", "rel", 101, 2, 8, timeout=300)]
         + [J("sf-mixed-memcheck", "simfuzz", "rel", 11, 64, 2000, timeout=600, extra=_VG, chunk=4),
